@@ -73,11 +73,12 @@ func tmplPlain(s string) bool {
 
 // TestVerifTmpl records every template execution of the REAL generator inside the REAL pipeline and emits one case per
 // distinct (template, data): the data by reflection, the holes' contents and the text the real engine produced.
-//   mode "marked": the C04 base scenario with the marker-carrying benign value of every leaf planted; holes = the
-//                  string leaves of the template data that carry the marker (the user-controlled ones);
-//   mode "spaced": one leaf at a time gets its benign value followed by a space and a second word;
-//   mode "states": generated cluster states with the NGF policy layer (OSS and Plus); holes = every plain string
-//                  leaf that no template constant equals.
+//
+//	mode "marked": the C04 base scenario with the marker-carrying benign value of every leaf planted; holes = the
+//	               string leaves of the template data that carry the marker (the user-controlled ones);
+//	mode "spaced": one leaf at a time gets its benign value followed by a space and a second word;
+//	mode "states": generated cluster states with the NGF policy layer (OSS and Plus); holes = every plain string
+//	               leaf that no template constant equals.
 func TestVerifTmpl(t *testing.T) {
 	out := vu.Open("TMPL")
 	out.ShardLen(40)
